@@ -1,0 +1,11 @@
+//go:build linux && !verif
+
+package packets
+
+import "net/netip"
+
+// verifSourceSink is the disabled form of the verification seam: it never
+// supplies a handle, so NewSourceSink behaves exactly as without it.
+func verifSourceSink(_ netip.Addr, _ bool) (SourceSinkHandle, bool, error) {
+	return SourceSinkHandle{}, false, nil
+}
